@@ -80,7 +80,15 @@ var asciiWords = []string{"Hello", "World", "Tj", "abc", "A", "x y", "0", "12", 
 // classes that stress escapes, nested parentheses, end-of-line bytes and the
 // octal/digit ambiguity.
 func GenStringBytes(t *rapid.T) []byte {
-	switch rapid.IntRange(0, 9).Draw(t, "strClass") {
+	switch rapid.IntRange(0, 40).Draw(t, "strClass") % 11 {
+	case 10: // longer than a 4 KiB read buffer: a short pattern repeated
+		pat := rapid.SliceOfN(rapid.Byte(), 1, 7).Draw(t, "hugePattern")
+		n := rapid.IntRange(4000, 5000).Draw(t, "hugeLen")
+		b := make([]byte, n)
+		for i := range b {
+			b[i] = pat[i%len(pat)]
+		}
+		return b
 	case 0:
 		return []byte{}
 	case 1:
